@@ -360,6 +360,8 @@ class CallMixin:
         self._newmap = None
         fr1.newmap = {id(entry[k]): live[k] for k in entry}
         for txt in c.ensures:
+            if '__trace__' in txt:
+                continue          # a clause about the callee's own effect trace says nothing the caller can use
             p.assume(self.ev_text(txt, fr1), heavy=True)
         if c.trusted:
             self.assumptions.add(f'assumed contract of {c.file}:{c.qual}' + (f' — {c.note}' if c.note else ''))
@@ -744,18 +746,39 @@ class CallMixin:
         names['re_match'] = Builtin('re_match', lambda a, k, n, f: self.re_syms(a[0], a[2] if len(a) > 2 else 'match')[1](self.zs.lift(a[1], STR)))
         names['re_group'] = Builtin('re_group', lambda a, k, n, f: self.re_group_syms(a[0], a[3] if len(a) > 3 else 'match', a[1])[0](self.zs.lift(a[2], STR)))
         names['re_group_none'] = Builtin('re_group_none', lambda a, k, n, f: self.re_group_syms(a[0], a[3] if len(a) > 3 else 'match', a[1])[1](self.zs.lift(a[2], STR)))
-        for om, (argsorts, ret) in (getattr(c, 'opaque', None) or {}).items():
+        for om, spec_ in (getattr(c, 'opaque', None) or {}).items():
+            argsorts, ret = spec_[0], spec_[1]
             names['obj_' + om] = Builtin('obj_' + om, lambda a, k, n, f, om=om, argsorts=argsorts, ret=ret: self.opaque_fn(om, argsorts, ret, a))
         names['truthy'] = Builtin('truthy', lambda a, k, n, f: self.truth(a[0]))
         names['seq_eq_from'] = Builtin('seq_eq_from', self.b_seq_eq_from)
         names['ite'] = Builtin('ite', lambda a, k, n, f: self.ite(self.truth(a[0]), a[1], a[2]))
         return names
 
-    def opaque_fn(self, om, argsorts, ret, a):
+    def opaque_app(self, om, argsorts, ret, recv_term, args):
+        """application of the uninterpreted function of an opaque method; an Opt(S) argument is passed as the pair
+        (is None, value) with a fixed default value when None"""
         zs = self.zs
-        f = self.ufun(f'obj_{om}', zs.zsort(api.Obj), *[zs.zsort(s_) for s_ in argsorts], zs.zsort(ret))
-        a2 = [zs.lift(self.unwrap_term(x), s_) for x, s_ in zip(a, [zs.zsort(api.Obj)] + [zs.zsort(s_) for s_ in argsorts])]
-        return f(*a2)
+        dom, a2 = [zs.zsort(api.Obj)], [recv_term]
+        for x, s_ in zip(args, argsorts):
+            if isinstance(s_, api.Opt):
+                zi = zs.zsort(s_.inner)
+                dom += [z3.BoolSort(), zi]
+                dflt = z3.StringVal('') if zi == STR else z3.IntVal(0) if zi == INT else z3.Const('none!' + str(zi), zi)
+                if x is None:
+                    a2 += [z3.BoolVal(True), dflt]
+                elif isinstance(x, VOpt):
+                    nn = x.none if z3.is_expr(x.none) else z3.BoolVal(bool(x.none))
+                    a2 += [nn, z3.If(nn, dflt, zs.lift(self.unwrap_term(x.val), zi))]
+                else:
+                    a2 += [z3.BoolVal(False), zs.lift(self.unwrap_term(x), zi)]
+            else:
+                dom.append(zs.zsort(s_))
+                a2.append(zs.lift(self.unwrap_term(x), zs.zsort(s_)))
+        f = self.ufun(f'obj_{om}', *dom, zs.zsort(ret))
+        return f(*a2), a2[1:]
+
+    def opaque_fn(self, om, argsorts, ret, a):
+        return self.wrap_sort(self.opaque_app(om, argsorts, ret, self.zs.lift(self.unwrap_term(a[0]), self.zs.zsort(api.Obj)), a[1:])[0], ret)
 
     def _const_intset(self, xs):
         t = z3.K(INT, False)
